@@ -52,7 +52,7 @@ schedule in which `close` is taken when `got.length = k`.
 | `Iterator.ProcessParallel`, `itertool.ParallelForEach/Process/Worker` | FanOut(n) | Split(n) + n worker goroutines `ReadAll(split.Producer())` under `ctx' = WithCancel(ctx)`; `hasOut = false`; closer = the calling goroutine `wg.Wait(Background)` (`closerCtx = false`) | iterator.go:546-581, itertool.go:23-76 |
 | `fun.Map`, `itertool.Map` (`Transform.ProcessParallel`) | FanOut(n) | Split(n) + n workers that send the transformed item into `output` (`cap = 0`, `hasOut`), all under `wctx2`; closer `wg.Wait(wctx)`, `wcancel`, `output.Close` (`closerCtx`) | transform.go:80-122, 287-306 |
 | `Iterator.ParallelBuffer n` | FanOut(max 1 n) | a goroutine (`.Once().Go()`: `onceGo`) runs `ProcessParallel(buf.Processor())`: workers send into `buf` (`cap = n`, `hasOut`); closer = that goroutine: `wg.Wait(Background)` (`closerCtx = false`), deferred cancel, `buf.Close` | iterator.go:605-609 |
-| concurrent `ReadOne` on `ChannelIterator(ch)` | FanOut(n) | `hasOut = false`, the "reader" is the user goroutine feeding `ch` (`cap` = the channel's) | iterator.go:100, chan.go:216-229 |
+| concurrent `ReadOne` on `ChannelIterator(ch)` | FanOut(n) | `hasOut = false`, no closer; the "reader" is the user goroutine feeding `ch`; a buffered `ch` is modelled by the rendezvous pipe (same outcome multisets; the driver compares these outcomes as multisets only). All readers share the iterator's context: the first reader that sees EOF closes it, so another parked reader may return `context.Canceled` instead of `io.EOF` (observation; nothing is lost) | iterator.go:100,231-254, chan.go:216-229 |
 
 Core Lean only (linked into the driver). -/
 
